@@ -417,6 +417,8 @@ func (f *Frame) MayWrite(fc *FnCtx, fn *types.Func, k any) bool {
 	switch {
 	case fn == nil:
 		w = f.wE // dynamic: any escaping function
+	case fn.Type().(*types.Signature).Recv() != nil && isInterface(fn.Type().(*types.Signature).Recv().Type()):
+		w = f.wE // interface method: any implementation, all of which are in E
 	case !inModule(fn.Pkg()):
 		w = f.wE // external: may call back into E
 	default:
